@@ -37,7 +37,7 @@ Inductive hint := HUnknown | HOther | HAnyPath | HFilePath | HDirPath | HExecuta
                 | HCommandString | HCommandWithArguments | HUsername | HHostname | HUrl | HEmailAddress.
 Inductive action := ASet | AAppend | ASetTrue | ASetFalse | ACount | AHelp | AVersion.
 
-Record arg := mkArg {
+Record arg := mkArgX {
   a_id : bytes;
   a_short : option bytes;                 (* the char, UTF-8 encoded *)
   a_long : option bytes;
@@ -47,13 +47,31 @@ Record arg := mkArg {
   a_num : option (N * N);                 (* explicit [num_args(min..=max)] *)
   a_pvs : option (list pval);             (* [value_parser(PossibleValuesParser)] *)
   a_hint : option hint;
-  a_global : bool; a_hide : bool; a_required : bool
+  a_global : bool; a_hide : bool; a_required : bool;
+  (* round 4: what only the zsh generator (and, for value names, [Arg::_build] / [render_arg_val]) reads;
+     every one has the default of [Arg::new] in the smart constructor [mkArg] below *)
+  a_value_names : list bytes;             (* [Arg::value_names]; [get_value_names()] is [None] when empty *)
+  a_terminator : option bytes;            (* [Arg::value_terminator] *)
+  a_last : bool;                          (* [Arg::last] *)
+  a_blacklist : list bytes;               (* [Arg::blacklist] = [conflicts_with*]: ids of arguments or groups, declaration order *)
+  a_groups : list bytes                   (* [Arg::group(s)]: [_build_self] creates / extends the [ArgGroup] of that id *)
 }.
+(** [Arg::new(id)] + the twelve fields every generator reads: the new fields take their defaults *)
+Definition mkArg (i : bytes) (s l : option bytes) (sa al : list (bytes * bool)) (ac : action) (n : option (N * N))
+                 (pv : option (list pval)) (h : option hint) (g hd r : bool) : arg :=
+  mkArgX i s l sa al ac n pv h g hd r [] None false [] [].
 
 Definition action_takes_values (a : action) : bool := match a with ASet | AAppend => true | _ => false end.
-(** [get_num_args().expect("built")] after [Arg::_build] *)
+(** [get_num_args().expect("built")] after [Arg::_build]: [num_vals.get_or_insert(val_names_len)] when there is more
+    than one value name, the action's [default_num_args] otherwise *)
 Definition a_num_built (a : arg) : N * N :=
-  match a_num a with Some r => r | None => if action_takes_values (a_action a) then (1, 1) else (0, 0) end.
+  match a_num a with
+  | Some r => r
+  | None =>
+      let k := N.of_nat (List.length (a_value_names a)) in
+      if 1 <? k then (k, k)
+      else if action_takes_values (a_action a) then (1, 1) else (0, 0)
+  end.
 Definition a_takes_values (a : arg) : bool := negb (snd (a_num_built a) =? 0).
 Definition a_min_values (a : arg) : N := fst (a_num_built a).
 Definition a_max_values (a : arg) : N := snd (a_num_built a).
@@ -86,14 +104,20 @@ Definition get_long_and_visible_aliases (a : arg) : option (list bytes) :=
   | Some s => Some (s :: match get_visible_aliases a with Some l => l | None => [] end)
   end.
 
-(** [Arg::render_arg_val] for an arg without value names, and [Display for Arg] of a positional *)
+(** [Arg::render_arg_val], and [Display for Arg] of a positional: the value names (the id when there is none; a single
+    name repeated [min_values().max(1)] times), each in [[..]] or [<..>] *)
 Definition render_arg_val (a : arg) : bytes :=
   let k := N.to_nat (N.max (a_min_values a) 1) in
-  let one := if a_is_positional a && ((a_min_values a =? 0) || negb (a_required a))
-             then lit "[" ++ a_id a ++ lit "]" else lit "<" ++ a_id a ++ lit ">" in
-  let extra := (N.of_nat k <? a_max_values a)
+  let val_names := match a_value_names a with
+                   | [] => repeat (a_id a) k
+                   | [v] => repeat v k
+                   | l => l
+                   end in
+  let one (v : bytes) := if a_is_positional a && ((a_min_values a =? 0) || negb (a_required a))
+                         then lit "[" ++ v ++ lit "]" else lit "<" ++ v ++ lit ">" in
+  let extra := (N.of_nat (List.length val_names) <? a_max_values a)
                || (a_is_positional a && match a_action a with AAppend => true | _ => false end) in
-  intercalate (lit " ") (repeat one k) ++ (if extra then lit "..." else []).
+  intercalate (lit " ") (map one val_names) ++ (if extra then lit "..." else []).
 Definition display_positional (a : arg) : bytes := render_arg_val a.
 
 (** ---- Command ---- *)
